@@ -349,6 +349,17 @@ func (vc *VC) loopEnv(fr *Frame, li *loopInfo, st *State) *Env {
 			}
 		}
 	}
+	// $range: the slice a `for ... := range x` loop iterates over (x may be an
+	// unnamed temporary such as a call result)
+	if lim := rangeLimit(fr, li); lim != nil {
+		if c, ok := lim.(*ssa.Call); ok {
+			if b, ok := c.Call.Value.(*ssa.Builtin); ok && b.Name() == "len" && len(c.Call.Args) == 1 {
+				if v, ok := fr.regs[c.Call.Args[0]]; ok {
+					env.vars["$range"] = v
+				}
+			}
+		}
+	}
 	// range indices of every enclosing range loop, by loop ordinal: $idx#N
 	env.idxBy = map[int]*Val{}
 	for _, l := range fr.loops {
@@ -717,7 +728,11 @@ func (vc *VC) callByContract(fr *Frame, st *State, x *ssa.Call, callee *ssa.Func
 	rs := callee.Signature.Results()
 	if con.Flags["pure"] {
 		r := vc.pureApp(st, &pureFunc{fn: callee, con: con}, args)
-		results = []*Val{r}
+		if len(r.Tup) > 0 {
+			results = r.Tup
+		} else {
+			results = []*Val{r}
+		}
 	} else {
 		for i := 0; i < rs.Len(); i++ {
 			v := vc.havocVal(rs.At(i).Type(), "r_"+callee.Name())
